@@ -1,7 +1,6 @@
 package main
 
 import (
-	"sync/atomic"
 	"bufio"
 	"bytes"
 	"errors"
@@ -15,6 +14,7 @@ import (
 	"strconv"
 	"strings"
 	"sync"
+	"sync/atomic"
 	"syscall"
 
 	"github.com/RoaringBitmap/roaring/v2"
@@ -218,7 +218,7 @@ func (e *Exec) runPar(c *Cmd, body []*Cmd, out *bufio.Writer) {
 	results := make([][]string, k)
 	var wg sync.WaitGroup
 	start := make(chan struct{}) // all goroutines leave the gate together ...
-	var ready int32             // ... and then spin until every one of them is actually running
+	var ready int32              // ... and then spin until every one of them is actually running
 	for g := 0; g < k; g++ {
 		wg.Add(1)
 		go func(g int) {
